@@ -50,6 +50,7 @@ def liveness(H):
         return v
     if H.verdict != "quiescent":
         return v
+    v += mgmt_crash(H)
     hung = [o for o in H.ops if o["outcome"] is None]
     pend = [tok for tok, f in H.futures.items() if f["state"] not in DONE]
     if pend:
@@ -75,6 +76,19 @@ def liveness(H):
                                 f"{blocked_summary(H)} remain and workers {alive} are alive; task crashes {H.task_crashes}",
                       "where": where_sig(H) + _crash_sig(H)})
     return v
+
+
+def mgmt_crash(H):
+    """An exception escaping the executor manager thread or the queue feeder thread: whatever they still owed (joining
+    workers, closing queues and pipes, ending the feeder) is never done."""
+    out = []
+    for c in H.task_crashes:
+        name = c[0].rstrip("0123456789")
+        if c[1] == 1000 and name in ("ExecutorManagerThread", "QueueFeederThread"):
+            out.append({"kind": "management_thread_crashed", "detail": f"{c[0]} died with {c[2]} at {c[3][-3:]}",
+                        "where": f"crash:{name}:{c[2].split(':')[0]}:{(c[3] or ['?'])[-1].split(':')[-1]}"})
+            break
+    return out
 
 
 def _crash_sig(H):
@@ -332,6 +346,7 @@ def c06(H):
     kills = [o for o in H.ops if (o["op"][0] == "shutdown" and o["op"][2]) or (o["op"][0] == "get" and o["op"][1].get("kill_workers"))]
     if not kills:
         return v
+    v += mgmt_crash(H)
     hung = [o for o in kills if o["outcome"] is None]
     if hung:
         v.append({"kind": "kill_shutdown_hangs", "detail": f"{[(o['thread'], o['op']) for o in hung]} never returned although it "
